@@ -1785,3 +1785,53 @@ def place_type_simple(body, place, adts):
         if ty.startswith("mut "):
             ty = ty[4:]
     return ty
+
+
+def rule_r14(E):
+    """A job may be marked complete without having run (Workload::update_be_glyph_work does that for the backend job of a glyph that
+    is not exported).  From then on every dependency on that id counts as fulfilled although nothing was produced.  That is only
+    sound while nobody needs the product: if a later job re-introduces the same id's subject (GlyphOrderWork synthesizes an exported
+    '.notdef' over a non-export one) the fake completion has to be taken back and the job scheduled.  Pairing rule: every function
+    other than handle_success / mark_also_completed that calls Workload::complete_one must record the id's subject in a field of
+    Workload, and handle_success must consult and clear that field and take entries out of `success` again."""
+    P = E.P
+    findings, obl = [], []
+    co = [k for k, b in P.bodies.items() if b.get("impl_self") == "fontc::workload::Workload" and k.endswith("::complete_one")]
+    hs = [k for k, b in P.bodies.items() if b.get("impl_self") == "fontc::workload::Workload" and k.endswith("::handle_success")]
+    if len(co) != 1 or len(hs) != 1:
+        raise E1Error(f"R14: complete_one / handle_success not found: {co} {hs}")
+
+    def field_uses(fn):
+        out = {}
+        fam = [fn] + [k for k in P.bodies if k.startswith(fn + "::{closure")]
+        for k in fam:
+            for blk in P.bodies[k]["blocks"]:
+                for st in blk["s"]:
+                    rv = st["rv"]
+                    pls = [rv.get("p")] + [o.get("m") or o.get("c") for o in rv.get("o", [])]
+                    for pl in pls:
+                        for e in (pl or []):
+                            if isinstance(e, str) and e.startswith("f:") and e.endswith(":fontc::workload::Workload"):
+                                out.setdefault(e.split(":")[1], set()).add(rv.get("bk") or "use")
+        return out
+
+    hs_uses = field_uses(hs[0])
+    n = 0
+    for key, b in sorted(P.bodies.items()):
+        if b.get("impl_self") != "fontc::workload::Workload" or key in (hs[0],) or key.endswith(("::mark_also_completed", "::complete_one")):
+            continue
+        if not any(s["kind"] == "call" and co[0] in s["targets"] for s in P.iter_sites(key)):
+            continue
+        n += 1
+        mine = {f for f, kinds in field_uses(key).items() if "mut" in kinds} - {"jobs_pending", "success", "count_pending", "also_completes", "job_count", "timer"}
+        paired = sorted(f for f in mine if "mut" in hs_uses.get(f, ()))
+        reopens = "success" in hs_uses and "mut" in hs_uses["success"]
+        ok = bool(paired) and reopens
+        obl.append({"rule": "R14", "inst": f"{key.rsplit('::', 1)[-1]} completes an id without running its job and records it ({paired or 'nowhere'}); handle_success re-opens recorded ids", "ok": ok})
+        if not ok:
+            findings.append({"rule": "R14", "key": f"R14|{key.rsplit('::', 1)[-1]}", "msg": f"{key} marks a job complete without running it (complete_one), but handle_success never takes such a completion back"
+                             f"{'' if paired else ' (the skipped ids are not even recorded)'}: if a later job re-introduces the subject of that id (GlyphOrderWork synthesizes an exported glyph under "
+                             f"the name of a non-export one) every dependency on it is already 'fulfilled' and its readers fail with 'is not available'", "loc": P.body_file_line(key), "detail": {}})
+    if n < 1:
+        raise E1Error("R14: no completion-without-execution site found (update_be_glyph_work changed?)")
+    return findings, obl
